@@ -117,6 +117,11 @@ impl CodeCache {
     let mut block_ended = false;
     let mut index = ip;
     while !block_ended {
+      // A block never runs from the fixed bank into the switchable one: what
+      // follows 0x3fff depends on the bank mapped when the block is executed
+      if ip < 0x4000 && index >= 0x4000 {
+        break;
+      }
       let code_slice = self.get_executable_memory_segment(index, mem);
       if code_slice.len() < 1 {
         break;
